@@ -11,7 +11,7 @@ VARIANTS = [(0, 0), (1, 0), (2, 1), (2, 2), (3, 1), (3, 2)]      # (strategy, pe
 STRAT = {"block": 0, "simple": 1, "blockpiv": 2, "simplepiv": 3}
 ENC = {"n": 0, "v": 1, "m": 2}
 
-def calls_for(n, seeds, variants=VARIANTS):
+def calls_for(n, seeds, variants=VARIANTS, forms=True):
     cs = []
     for (s, e) in variants:
         for k, sd in enumerate(seeds):
@@ -20,6 +20,10 @@ def calls_for(n, seeds, variants=VARIANTS):
                 if fam == 0 and k > 0 and n > 6:
                     continue
                 cs.append("run_lu<%d,%d,%d>(%du,%d);" % (n, s, e, sd, fam))
+    if forms and n <= 20:
+        # the !is_tensor_v overloads (expression argument: evaluate, pivot_inplace, apply_pivot_inplace): two variants per size
+        for (s, e) in [VARIANTS[(n + 2) % 6], VARIANTS[(n + 5) % 6]]:
+            cs.append("run_lu<%d,%d,%d,1>(%du,%d);" % (n, s, e, seeds[0], 1))
     return cs
 
 def rat_groups(tier, seed):
@@ -27,11 +31,11 @@ def rat_groups(tier, seed):
     rng = random.Random(seed * 7001 + 11)
     seeds = [seed * 131 + 1, seed * 131 + 2] if tier == "quick" else [seed * 131 + k for k in range(1, 6)]
     groups = []
-    def g(key, sizes, seeds=seeds, variants=VARIANTS, isa="sse2"):
+    def g(key, sizes, seeds=seeds, variants=VARIANTS, isa="sse2", std="c++14"):
         calls = []
         for n in sizes:
             calls += calls_for(n, seeds, variants)
-        groups.append({"key": key, "header": "lu_rat.h", "isa": isa, "opt": "-O0", "calls": calls})
+        groups.append({"key": key, "header": "lu_rat.h", "isa": isa, "opt": "-O0", "std": std, "calls": calls})
     g("rat/n1-4", [1, 2, 3, 4]); g("rat/n5-6", [5, 6]); g("rat/n7-8", [7, 8])
     big = [(0, 0), (2, 1), (2, 2)]
     if tier == "quick":
@@ -49,7 +53,9 @@ def rat_groups(tier, seed):
         g("rat/b40-63", [40, 47, 63], seeds[:2], big)
         g("rat/b72-129", [72, 96, 129], seeds[:1], big)
         g("rat/n21-31", [21, 24, 27, 31], seeds[:2], VARIANTS)
-        g("rat/avx512/n8-9-33", [8, 9, 33], seeds[:2], VARIANTS, isa="avx512")
+        # C++17: under C++14 + AVX-512 masks matmul of a non-SIMD element type (vf::Rat) is rejected by the compiler
+        # (compile-acceptance defect recorded and repaired under C06; not part of this property)
+        g("rat/avx512/n8-9-33", [8, 9, 33], seeds[:2], VARIANTS, isa="avx512", std="c++17")
     return groups
 
 def real_groups(tier, seed):
@@ -73,7 +79,7 @@ def real_groups(tier, seed):
 
 def short_key(f):
     d = symrun.kv(f["input"]); o = symrun.kv(f["impl"])
-    return "rat lu n=%s strat=%s enc=%s fam=%s seed=%s %s" % (d.get("n"), d.get("strat"), d.get("enc"), d.get("fam"), d.get("seed"), o.get("ORACLE", "?"))
+    return "rat lu n=%s strat=%s enc=%s form=%s fam=%s seed=%s %s" % (d.get("n"), d.get("strat"), d.get("enc"), d.get("form", "0"), d.get("fam"), d.get("seed"), o.get("ORACLE", "?"))
 
 def run(tier, seed):
     return flow.standard_run(
@@ -91,7 +97,7 @@ def run(tier, seed):
 def sym_call_of(inp):
     d = symrun.kv(inp)
     return {"key": "replay", "header": "lu_rat.h", "isa": "sse2", "opt": "-O0",
-            "calls": ["run_lu<%s,%d,%d>(%su,%s);" % (d["n"], STRAT[d["strat"]], ENC[d["enc"]], d["seed"], d["fam"])]}
+            "calls": ["run_lu<%s,%d,%d,%s>(%su,%s);" % (d["n"], STRAT[d["strat"]], ENC[d["enc"]], d.get("form", "0"), d["seed"], d["fam"])]}
 
 def replay(path):
     return flow.standard_replay(path, sym_call_of)
